@@ -489,14 +489,18 @@ class Interp:
         if isinstance(t, ast.Compare) and len(t.ops) == 1:
             self._compare(t, st, truth)
             return [st]
-        if isinstance(t, ast.Compare) and len(t.ops) == 2 and truth:
-            # a <= x < b
-            c1 = ast.Compare(t.left, [t.ops[0]], [t.comparators[0]])
-            c2 = ast.Compare(t.comparators[0], [t.ops[1]], [t.comparators[1]])
-            for c in (c1, c2):
+        if isinstance(t, ast.Compare) and len(t.ops) >= 2:
+            # a <= x < b  ==  (a <= x) and (x < b)
+            parts = []
+            left = t.left
+            for op, right in zip(t.ops, t.comparators):
+                c = ast.Compare(left, [op], [right])
                 ast.copy_location(c, t)
-                self._compare(c, st, True)
-            return [st]
+                parts.append(c)
+                left = right
+            b = ast.BoolOp(ast.And(), parts)
+            ast.copy_location(b, t)
+            return self._assume(b, st, truth)
         if isinstance(t, ast.Constant):
             if bool(t.value) != truth:
                 st.bottom = True
@@ -561,6 +565,14 @@ class Interp:
         if not (isinstance(a, Lin) and isinstance(b, Lin)):
             return
         d = a - b
+        if op in (ast.Lt, ast.LtE, ast.Gt, ast.GtE):
+            # an ordering comparison that did not raise: both operands are numbers
+            for v in (a, b):
+                sv = pure_sym(v)
+                if sv is not None and not sv.startswith("@"):
+                    st.enum_meet(sv, "notin", ["None"])
+            if st.bottom:
+                return
         if op is ast.Eq:
             st.add_eq(d)
             sa, sb = pure_sym(a), pure_sym(b)
@@ -612,6 +624,8 @@ class Interp:
             st.enums.pop(sym, None)
             if e is not None:
                 st.enums[sym] = e
+            elif src is None:
+                st.enums[sym] = ("notin", frozenset(["None"]))
         elif isinstance(val, Tok):
             st.forget(sym)
             st.enum_set(sym, val.v)
